@@ -108,8 +108,10 @@ type memConn struct {
 	//   bit 0: Read/Write after a local Close fail with an error wrapping net.ErrClosed ("use of closed network connection")
 	//   bit 1: a failing Write reports an error that wraps io.EOF
 	//   bit 2: the second and later Close calls return an error (net.Conn does)
+	//   bit 3: the transport also offers CloseWrite() like *net.TCPConn / *tls.Conn (see memConnCW)
 	flavour int
 	nClose  int32
+	wClosed int32 // CloseWrite was called
 
 	wmu sync.Mutex
 
@@ -184,6 +186,9 @@ func (c *memConn) Write(p []byte) (int, error) {
 	} else {
 		c.wmu.Lock()
 		defer c.wmu.Unlock()
+	}
+	if atomic.LoadInt32(&c.wClosed) != 0 {
+		return 0, c.closedErr("write")
 	}
 	if atomic.LoadInt32(&c.blockWrites) != 0 {
 		// a write that cannot make progress: it ends only when the link does
@@ -308,4 +313,22 @@ func (c *memConn) unread() int {
 	c.mu.Lock()
 	defer c.mu.Unlock()
 	return len(c.rbuf)
+}
+
+// memConnCW is a memConn that also has CloseWrite (TCP and TLS connections do): after it, writes fail and the peer
+// would see EOF, but the transport is not closed - reads go on until Close.
+type memConnCW struct{ *memConn }
+
+func (c memConnCW) CloseWrite() error {
+	c.log.add(c.id, "CLOSE-WRITE", nil, "")
+	atomic.StoreInt32(&c.wClosed, 1)
+	return nil
+}
+
+// asTransport returns the value to put into BaseClient.Transport for this connection's flavour.
+func (c *memConn) asTransport() io.ReadWriteCloser {
+	if c.flavour&8 != 0 {
+		return memConnCW{c}
+	}
+	return c
 }
